@@ -50,6 +50,10 @@ pub open spec fn m_remove<K, V>(s: Seq<(K, V)>, k: K) -> Seq<(K, V)> {
 pub open spec fn m_get<K, V>(s: Seq<(K, V)>, k: K) -> Option<V> {
     if m_has(s, k) { Some(s[m_idx(s, k)].1) } else { None }
 }
+/// `swap_remove`: the entry is replaced by the last one, which is popped
+pub open spec fn m_swap_remove<K, V>(s: Seq<(K, V)>, k: K) -> Seq<(K, V)> {
+    if m_has(s, k) { let i = m_idx(s, k); if i == s.len() - 1 { s.drop_last() } else { s.update(i, s.last()).drop_last() } } else { s }
+}
 pub open spec fn m_distinct<K, V>(s: Seq<(K, V)>) -> bool {
     forall|i: int, j: int| 0 <= i < j < s.len() ==> (#[trigger] s[i]).0 != (#[trigger] s[j]).0
 }
@@ -112,6 +116,46 @@ impl<K: View, V: View> IndexMap<K, V> {
     #[verifier::external_body]
     pub fn len(&self) -> (r: usize)
         ensures r == self@.len(), r < usize::MAX,
+    { unimplemented!() }
+
+    // The rest of the commonly used map API (same source), so that an edit of
+    // the extracted code that switches to another method still composes.
+    /// map.rs `is_empty`
+    #[verifier::external_body]
+    pub fn is_empty(&self) -> (r: bool)
+        ensures r <==> self@.len() == 0,
+    { unimplemented!() }
+
+    /// map.rs `contains_key`
+    #[verifier::external_body]
+    pub fn contains_key(&self, key: &K) -> (r: bool)
+        ensures r <==> m_has(self@, key@),
+    { unimplemented!() }
+
+    /// map.rs `get`: a reference to the value stored for the key
+    #[verifier::external_body]
+    pub fn get(&self, key: &K) -> (r: Option<&V>)
+        ensures
+            r is Some <==> m_has(self@, key@),
+            r is Some ==> Some(r->Some_0@) == m_get(self@, key@),
+    { unimplemented!() }
+
+    /// map.rs `swap_remove` -> core.rs `swap_remove_full`: "Like Vec::swap_remove,
+    /// the pair is removed by swapping it with the last element of the map and
+    /// popping it off. This perturbs the position of what used to be the last
+    /// element! Return None if key is not in map."
+    #[verifier::external_body]
+    pub fn swap_remove(&mut self, key: &K) -> (r: Option<V>)
+        ensures
+            final(self)@ == m_swap_remove(old(self)@, key@),
+            r is Some <==> m_has(old(self)@, key@),
+            r is Some ==> Some(r->Some_0@) == m_get(old(self)@, key@),
+    { unimplemented!() }
+
+    /// map.rs `clear`
+    #[verifier::external_body]
+    pub fn clear(&mut self)
+        ensures final(self)@.len() == 0,
     { unimplemented!() }
 }
 
@@ -184,6 +228,10 @@ pub open spec fn s_insert<T: SetElem>(s: Seq<T::V>, x: T::V) -> Seq<T::V> {
 pub open spec fn s_remove<T: SetElem>(s: Seq<T::V>, k: T::K) -> Seq<T::V> {
     if s_has::<T>(s, k) { s.remove(s_idx::<T>(s, k)) } else { s }
 }
+/// `swap_remove`: the element is replaced by the last one, which is popped
+pub open spec fn s_swap_remove<T: SetElem>(s: Seq<T::V>, k: T::K) -> Seq<T::V> {
+    if s_has::<T>(s, k) { let i = s_idx::<T>(s, k); if i == s.len() - 1 { s.drop_last() } else { s.update(i, s.last()).drop_last() } } else { s }
+}
 pub open spec fn s_distinct<T: SetElem>(s: Seq<T::V>) -> bool {
     forall|i: int, j: int| 0 <= i < j < s.len() ==> T::skey(#[trigger] s[i]) != T::skey(#[trigger] s[j])
 }
@@ -228,6 +276,37 @@ impl<T: SetElem> IndexSet<T> {
         ensures
             final(self)@ == s_remove::<T>(old(self)@, T::skey(value@)),
             r <==> s_has::<T>(old(self)@, T::skey(value@)),
+    { unimplemented!() }
+
+    // The rest of the commonly used set API (same source), so that an edit of
+    // the extracted code that switches to another method still composes.
+    /// set.rs `swap_remove`: "Like Vec::swap_remove, the value is removed by
+    /// swapping it with the last element of the set and popping it off. This
+    /// perturbs the position of what used to be the last element! Return false
+    /// if value was not in the set."
+    #[verifier::external_body]
+    pub fn swap_remove(&mut self, value: &T) -> (r: bool)
+        ensures
+            final(self)@ == s_swap_remove::<T>(old(self)@, T::skey(value@)),
+            r <==> s_has::<T>(old(self)@, T::skey(value@)),
+    { unimplemented!() }
+
+    /// set.rs `contains`
+    #[verifier::external_body]
+    pub fn contains(&self, value: &T) -> (r: bool)
+        ensures r <==> s_has::<T>(self@, T::skey(value@)),
+    { unimplemented!() }
+
+    /// set.rs `len` (bound as for IndexMap::len)
+    #[verifier::external_body]
+    pub fn len(&self) -> (r: usize)
+        ensures r == self@.len(), r < usize::MAX,
+    { unimplemented!() }
+
+    /// set.rs `is_empty`
+    #[verifier::external_body]
+    pub fn is_empty(&self) -> (r: bool)
+        ensures r <==> self@.len() == 0,
     { unimplemented!() }
 }
 
